@@ -42,7 +42,7 @@ NAME_RE = re.compile(r"^(\d{4})_(.*)_(\d{4}-\d{2}-\d{2}_\d{6})Z\.mhl$", re.S)
 
 @st.composite
 def _scn(draw):
-    s = draw(hist.scenarios(CFG))
+    s = draw(hist.scenarios_deep(CFG))
     s["frozen"] = draw(st.sampled_from([None, None, "2020-01-15 13:00:00", "1999-12-31 23:59:59"]))
     return s
 
